@@ -322,10 +322,10 @@ Proof.
 Qed.
 
 (* ---- normal-demand cost: (K lam + I)/Q with I the value returned by quad ---- *)
-Theorem rq_cost_def_normal I Qn h p K lam sd L : 0 < Qn -> 0 < h -> 0 < p -> 0 < K -> 0 <= lam -> 0 <= sd -> 0 <= L ->
+Theorem rq_cost_def_normal I Qn h p K lam sd L : 0 < Qn -> 0 < h -> 0 < p -> 0 < K -> 0 < lam -> 0 < sd -> 0 < L ->
   r_q_cost I Qn h p K lam sd L = Ok ((K * lam + I) / Qn).
 Proof.
-  intros. unfold r_q_cost.
+  intros HQ Hh Hp HK Hl Hsd HL. unfold r_q_cost. assert (0 < lam * L) by nra.
   destruct (qleb_spec Qn 0) as [[? _]|[_ E]]; [lra|rewrite E; clear E].
   destruct (qleb_spec h 0) as [[? _]|[_ E]]; [lra|rewrite E; clear E].
   destruct (qleb_spec p 0) as [[? _]|[_ E]]; [lra|rewrite E; clear E].
@@ -333,6 +333,9 @@ Proof.
   destruct (qltb_spec lam 0) as [[? _]|[_ E]]; [lra|rewrite E; clear E].
   destruct (qltb_spec sd 0) as [[? _]|[_ E]]; [lra|rewrite E; clear E].
   destruct (qltb_spec L 0) as [[? _]|[_ E]]; [lra|rewrite E; clear E].
+  destruct (qleb_spec (lam * L) 0) as [[? _]|[_ E]]; [lra|rewrite E; clear E].
+  destruct (qleb_spec sd 0) as [[? _]|[_ E]]; [lra|rewrite E; clear E].
+  destruct (qleb_spec L 0) as [[? _]|[_ E]]; [lra|rewrite E; clear E].
   reflexivity.
 Qed.
 
